@@ -63,6 +63,7 @@ type Frame struct {
 type loopCut struct {
 	heapAt   map[string]*Term // heap right after the havoc
 	freshAt  int              // number of fresh objects at the cut
+	nfreshAt int              // value of the global allocation counter at the cut
 	lets     map[string]Value
 	evBase   int
 	locks    map[string]int // mutexes held at the cut
@@ -98,6 +99,7 @@ type State struct {
 	baseFrames int // pure evaluation: frames[:baseFrames] belong to the caller and are shared
 	evBase  int // event builtins see st.events[evBase:]
 	opaque  int // !=0: event builtins refer to the (invisible) trace of callee activation #opaque
+	opaqueNfresh int // allocation counter when that callee was called (fresh() in its clauses: allocated during the call)
 }
 
 type streamRead struct {
@@ -117,7 +119,7 @@ type seqDef struct {
 func (st *State) top() *Frame { return st.frames[len(st.frames)-1] }
 
 func (st *State) clone() *State {
-	n := &State{pure: st.pure, chanVer: st.chanVer, steps: st.steps, definable: st.definable, opaque: st.opaque, evBase: st.evBase}
+	n := &State{pure: st.pure, chanVer: st.chanVer, steps: st.steps, definable: st.definable, opaque: st.opaque, opaqueNfresh: st.opaqueNfresh, evBase: st.evBase}
 	n.baseFrames = st.baseFrames
 	n.frames = make([]*Frame, len(st.frames))
 	for i, f := range st.frames {
